@@ -483,12 +483,55 @@ pub fn c04_state(rp: &Position, b: &Board, played: bool) -> Vec<Divergence> {
             }
         }
         // clocks are not part of the identity: same position with other clocks hashes the same
-        let mut other = rp.clone();
-        other.half = (rp.half + 7) % 90;
-        other.full = rp.full + 3;
-        if let Ok(o) = parse_board(&other.to_fen()) {
-            if o == *b && o.zobrist() != b.zobrist() {
-                d.push(Divergence::new("hash-depends-on-clocks", format!("{fen}: hash changes with the clocks")));
+        // (one setting below the fifty-move limit, one at it, one at the parser's maximum)
+        for (half, full) in [((rp.half + 7) % 90, rp.full + 3), (100, rp.full), (if rp.half >= 100 { 99 } else { 101 + rp.half % 50 }, 1), (9999, 9999)] {
+            let mut other = rp.clone();
+            other.half = half;
+            other.full = full;
+            if let Ok(o) = parse_board(&other.to_fen()) {
+                if o == *b && (o.zobrist() != b.zobrist() || hash_trait_bytes(&o) != hash_trait_bytes(b)) {
+                    d.push(Divergence::new("hash-depends-on-clocks", format!("{fen}: hash changes with the clocks (half-move {half}, full-move {full})")));
+                }
+            }
+        }
+        // the same position assembled through the builder (possible from outside the crate only
+        // without castling rights): in square order, and with redundant calls (setters repeated,
+        // a piece placed, removed and placed again, reverse order)
+        if !rp.rights.iter().any(|x| *x) {
+            for variant in 0..2 {
+                let mut bld = Board::builder();
+                if variant == 1 {
+                    bld.turn(real_color(rp.turn.flip())).turn(real_color(rp.turn.flip()));
+                    bld.enpassant(chess_bitboard::File::from_u8(3).unwrap());
+                }
+                bld.turn(real_color(rp.turn));
+                if variant == 1 {
+                    bld.turn(real_color(rp.turn));
+                }
+                bld.half_move_clock(rp.half as u16).full_move_clock(rp.full as u16);
+                bld.enpassant(rp.ep.map(|f| chess_bitboard::File::from_u8(f as u8).unwrap()));
+                let squares: Vec<u8> = if variant == 0 { (0..64).collect() } else { (0..64).rev().collect() };
+                let mut first = true;
+                for s in squares {
+                    if let Some((c, p)) = rp.at(s) {
+                        let _ = bld.place(pos(s), real_color(c), real_piece(p));
+                        if variant == 1 && first {
+                            bld.remove(pos(s));
+                            let _ = bld.place(pos(s), real_color(c), real_piece(p));
+                            // a refused placement on an occupied square must leave the key alone
+                            let _ = bld.place(pos(s), real_color(c.flip()), real_piece(refchess::Pc::Q));
+                            first = false;
+                        }
+                    }
+                }
+                if let Ok(t) = bld.build() {
+                    if t == *b && (t.zobrist() != b.zobrist() || hash_trait_bytes(&t) != hash_trait_bytes(b)) {
+                        d.push(Divergence::new(
+                            "builder-board-hashes-differently",
+                            format!("{fen}: the board assembled through the builder ({}) equals this one but hashes {} vs {}", if variant == 0 { "plain" } else { "with redundant calls" }, t.zobrist(), b.zobrist()),
+                        ));
+                    }
+                }
             }
         }
     }
